@@ -111,9 +111,57 @@ def run_pair(job):
     return res
 
 
+def inproc_job(args):
+    h, path, ref, lo, hi = args
+    return core.run([h, "lines", path, str(lo), str(hi), "0", ref], core.base_env(), timeout=600)
+
+
+def run_inprocess(ctx, rng):
+    """LineReader over a compressed file at EVERY block size from 1 (decoder chunking against block size, exhaustively
+    for small files) against the reference lines of the plain bytes; harness `s4verif lines`."""
+    import json
+    h = core.build_harness()
+    d = ctx.casedir("inproc")
+    jobs, meta = [], []
+    for i in range(ctx.pick(160, 3000)):
+        n = rng.choice([1, 2, 7, 30, 64, 65, 200, 1000])
+        data = bytes(rng.choice(b"ab\n\n\r\x00\xff xyz") for _ in range(n))
+        ref = gen.write(os.path.join(d, "p%05d.txt" % i), data)
+        codec = rng.choice(["gz", "bz2", "xz", "lz4", "lz4"])
+        cb, desc = codec_variant(rng, codec, data)
+        if codec == "lz4":
+            # lz4 block splits far below the data size so that many block sizes are not aligned with them
+            split = rng.choice([1, 3, 7, 16, 33, 100])
+            cb = gen.lz4_frame(data, split=split, stored=rng.random() < 0.5, content_checksum=rng.random() < 0.5)
+            desc = "lz4 split=%d" % split
+        path = gen.write(os.path.join(d, "p%05d.txt.%s" % (i, codec)), cb)
+        jobs.append((h, path, ref, 1, min(len(data) + 2, 260)))
+        meta.append((desc, data))
+    for (desc, data), r in zip(meta, core.pmap(inproc_job, jobs)):
+        if r.timed_out:
+            ctx.inconc("watchdog")
+            continue
+        try:
+            st = json.loads(r.out.decode().splitlines()[0])
+        except Exception:
+            ctx.violation("C05|inprocess|crash|%s" % desc.split()[0], "harness died: rc=%s stderr=%r" % (r.rc, r.err[-300:]), files={"input": data})
+            continue
+        ctx.evaluated(st["pairs"], ("inproc", desc, len(data)))
+        ctx.count("in-process streamed LineReader (file, blocksz) pairs", st["pairs"])
+        ctx.count("in-process container:%s" % desc.split()[0], st["pairs"])
+        if st["mismatches"]:
+            first = [l for l in r.out.decode("utf-8", "replace").splitlines() if l.startswith("MISMATCH")][:3]
+            allm = [l for l in r.out.decode("utf-8", "replace").splitlines() if l.startswith("MISMATCH")]
+            sig = "C05|inprocess|%s|lines-differ-from-plain" % desc.split()[0]
+            if allm and all("Unsupported SHA-256 checksum" in l for l in allm):
+                sig = "C05|xz|sha256-check-unsupported"
+            ctx.violation(sig, "%s: %s" % (desc, "; ".join(first)), files={"input": data, "harness.out": r.out}, info={"argv": r.argv})
+
+
 def run(ctx):
     s4 = core.build_s4()
     rng = ctx.rng
+    run_inprocess(ctx, rng)
     ncases = ctx.pick(300, 6000)
     ctx.rule = ("payload (text boundary-directed / fixed-struct layouts / shipped evtx+journal) x container variant (gz, bz2, xz, hand-written "
                 "lz4 frames incl. block splits not aligned to the read block size, tar ustar/gnu/pax with 1..4 members and long names) x "
